@@ -1268,16 +1268,30 @@ type dupConn struct {
 // remoteAddr.String() right before it consults the table, so every goroutine of a round waits here for the
 // others (or 30 ms) and they all reach the test-and-insert together.
 type barrierAddr struct {
-	n       int32
-	arrived *int32
+	n         int32
+	arrived   *int32
+	releaseAt *int64 // unix nanoseconds, set by the last arrival: everybody leaves at that instant
 }
 
 func (a barrierAddr) Network() string { return "udp" }
 func (a barrierAddr) String() string {
-	atomic.AddInt32(a.arrived, 1)
+	if atomic.AddInt32(a.arrived, 1) == a.n {
+		atomic.StoreInt64(a.releaseAt, time.Now().UnixNano()+int64(60*time.Microsecond))
+	}
 	deadline := time.Now().Add(30 * time.Millisecond)
-	for atomic.LoadInt32(a.arrived) < a.n && time.Now().Before(deadline) {
-		runtime.Gosched()
+	for spins := 0; ; spins++ {
+		// (a tight spin on the clock: everybody leaves within nanoseconds of each other)
+		if r := atomic.LoadInt64(a.releaseAt); r != 0 && time.Now().UnixNano() >= r {
+			break
+		}
+		if spins%1024 == 1023 {
+			if !time.Now().Before(deadline) {
+				break
+			}
+			if atomic.LoadInt64(a.releaseAt) == 0 {
+				runtime.Gosched()
+			}
+		}
 	}
 	return "peer0"
 }
@@ -1300,15 +1314,32 @@ func (c *dupConn) SetDeadline(t time.Time) error                { return nil }
 func (c *dupConn) SetReadDeadline(t time.Time) error            { return nil }
 func (c *dupConn) SetWriteDeadline(t time.Time) error           { return nil }
 
+// runDups: 40 rounds (the goroutines of a round are lined up at the table, see barrierAddr; how tightly depends
+// on the load of the machine); the first round that is not "one handler, the others dropped" is the result
 func runDups(n int, w *os.File) string {
 	if n < 1 || n > 64 {
 		return "BAD-CASE"
 	}
+	out := ""
+	for round := 0; round < 40; round++ {
+		out = runDupsRound(n)
+		if out != fmt.Sprintf("starts=1 dropped=%d shutdown=nil", n-1) {
+			break
+		}
+	}
+	if w != nil {
+		w.WriteString(out)
+	}
+	return out
+}
+
+func runDupsRound(n int) string {
 	var starts, dones int32
 	release := make(chan struct{})
 	conn := &dupConn{in: make(chan []byte), closed: make(chan struct{})}
 	var arrived int32
-	conn.barrier = &barrierAddr{n: int32(n), arrived: &arrived}
+	var releaseAt int64
+	conn.barrier = &barrierAddr{n: int32(n), arrived: &arrived, releaseAt: &releaseAt}
 	srv := &radius.PacketServer{SecretSource: radius.StaticSecretSource([]byte("s")), Handler: radius.HandlerFunc(func(w radius.ResponseWriter, r *radius.Request) {
 		atomic.AddInt32(&starts, 1)
 		<-release
@@ -1338,9 +1369,5 @@ func runDups(n int, w *os.File) string {
 	ctx, cancel := context.WithTimeout(context.Background(), labWait)
 	defer cancel()
 	serr := srv.Shutdown(ctx)
-	out := fmt.Sprintf("starts=%d dropped=%d shutdown=%s", s, dn, errName(serr))
-	if w != nil {
-		w.WriteString(out)
-	}
-	return out
+	return fmt.Sprintf("starts=%d dropped=%d shutdown=%s", s, dn, errName(serr))
 }
